@@ -331,9 +331,9 @@ pub fn run(cfg: &RunCfg) -> i32 {
     }
     if !check.has_violation() {
         // the callers of the flush procedure (periodic task, shutdown sequence) in a real process
-        use crate::props::c18::{self, Backend, Stop};
+        use crate::props::c18::{self, Stop};
         check.assume("process part: a real server process in JSON mode with a flush interval of 1 s (the minimum the configuration allows); one client, so the applied order is the request order; SIGKILL can hit anywhere, including inside a flush - the positions are sampled by wall-clock time, not enumerated");
-        let backend = Backend { mode: "Json", interval_s: 1, prop: "C10" };
+        let backend = c18::JSON_1S;
         let n = cfg.cases(24, 2_000);
         let strat = || {
             (
@@ -356,7 +356,7 @@ pub fn run(cfg: &RunCfg) -> i32 {
         });
         check.add_part(
             "process",
-            "a server process with JSON persistence (flush interval 1 s) receives 1..=16 requests (set, cset, delete, pdelete, grave goods / last will registrations) by one client, who pauses 1.0-1.5 s at a generated position so that a periodic flush falls into the middle of the history, and is stopped by SIGKILL after 0-1.6 s, by SIGKILL right after a generated answer, or by SIGTERM; a second process on the same directory is read back; oracle: the served user keys (value, kind, CAS version) equal the state after some prefix of the single-key changes with the registrations of that prefix applied - never a mix - and all of them after a clean stop; non-trivial = the recovered prefix is non-empty and (shorter than the history or the stop was clean); distinct = case",
+            "a server process with JSON persistence (flush interval 1 s) receives 1..=16 requests (set, cset, delete, pdelete, grave goods / last will registrations) by one client, who pauses 1.0-1.5 s at a generated position so that a periodic flush falls into the middle of the history, and is stopped by SIGKILL after 0-1.6 s, by SIGKILL right after a generated answer, or by SIGTERM; a second process on the same directory is read back; oracle: the served user keys (value, kind, CAS version) equal the state after some prefix of the single-key changes with the registrations of that prefix applied - never a mix, never a partial state (also after a clean stop: the statement promises the last completed flush or the one in progress, and the periodic flush task can still be writing an older snapshot while the shutdown sequence flushes); non-trivial = the recovered prefix is non-empty and (shorter than the history or the stop was clean); distinct = case",
             false,
             agg,
         );
